@@ -451,6 +451,18 @@ Section C01_feeders.
       /\ (forall i, proj i tr = nth i feeders [])
       /\ Permutation got (concat (concat feeders)).
   Proof. exact (feeders_exactly_once name arg frame dstate enc d0 dec_step C09_codec_roundtrip). Qed.
+
+  (** The repaired client (63b366a): the old transport delivers nothing after the swap
+      (C07_no_poll_delivery_after_swap, Props/C07.v), so the feeders are sequential; then whatever
+      the cutting of the new transport's frames into deliveries (one frame per websocket message,
+      attachments included), the parser finishes exactly the old transport's events followed by
+      the new transport's. *)
+  Theorem C01_feeders_sequential_exactly_once :
+    forall (evs_old evs_new : list (event name arg)) (old_ds new_ds : list (list frame)),
+      concat old_ds = flat_map enc evs_old ->
+      concat new_ds = flat_map enc evs_new ->
+      parse_deliveries name arg frame dstate d0 dec_step (old_ds ++ new_ds) = evs_old ++ evs_new.
+  Proof. exact (feeders_sequential_exactly_once name arg frame dstate enc d0 dec_step C09_codec_roundtrip). Qed.
 End C01_feeders.
 
 (** Outside the side condition, on C02's model of Parser.Add (it takes whatever comes next as the
@@ -466,7 +478,8 @@ Theorem C01_feeders_frame_granularity_refuted :
     @parse_from nat wdeclared 0 None [11; 20; 7] = Err.
 Proof. exact feeders_frame_granularity_refuted. Qed.
 
-(** (2) THE CODE AS IT IS (finding upgrade-window:late-poll-vs-websocket-attachments): deliveries
+(** (2) The code BEFORE fix 63b366a (finding upgrade-window:late-poll-vs-websocket-attachments;
+        since the fix: C01_feeders_sequential_exactly_once): deliveries
         are atomic, but a websocket delivery is one frame; a late poll response that wins the mutex
         between the websocket header 31 and its attachment 8 is taken for the attachment. *)
 Theorem C01_feeders_websocket_attachments_refuted :
